@@ -282,7 +282,7 @@ func TestC02_stacks(t *testing.T) {
 	kit.Check(t, kit.Prop[c02Case]{
 		ID: "C02", Quick: 4000, Thor: 400_000,
 		Rule: "limiter stack x event sequence on a virtual clock (arrivals with keys and self-completing holders, completions with all outcomes, cancellations, sleeps, same-instant bursts); conservation invariants at every quiescent point and the zero state at the end; non-trivial = a completion while a caller was blocked and a caller that gave up",
-		Gen:  genC02(c02Kinds, false), Run: runC02,
+		Gen:  genC02(c02Kinds, false), Run: runC02, Timeout: 30 * time.Second,
 	})
 }
 
@@ -291,7 +291,7 @@ func TestC02_sched_Coop(t *testing.T) {
 	kit.Check(t, kit.Prop[c02Case]{
 		ID: "C02", Quick: 2500, Thor: 250_000,
 		Rule: "as TestC02_stacks plus a generated cooperative schedule (yield counts at the library's schedule points and around the injected delegate); same invariants",
-		Gen:  genC02(c02Kinds, true), Run: runC02,
+		Gen:  genC02(c02Kinds, true), Run: runC02, Timeout: 30 * time.Second,
 	})
 }
 
